@@ -63,7 +63,7 @@ type Scenario struct {
 	Ops       []MuxOp        `json:"ops,omitempty"`
 }
 
-var labels = []string{"a", "b", "c"}
+var labels = []string{"a", "b", "c", "a\\.b", "c\\046a"} // the last two are single labels that contain a dot
 
 func randName(r interface{ IntN(int) int }, depth int) string {
 	if depth == 0 {
